@@ -445,15 +445,17 @@ def c02_r4(ctx):
     for n, c in adds:
         facts = fa.at(n) or frozenset()
         true_facts = [t for (p, t) in facts if p == "T"]
+        false_facts = [t for (p, t) in facts if p == "F"]
+        # (comparison facts are stored in positive form: `a != b` true is recorded as `a == b` false)
         toc_ok = any("_pattern(indexname).match(" in t and ".group(" not in t and "_segment_pattern" not in t for t in true_facts) and \
-            any(re.match(r"^\((gen != int\(.*_pattern\(indexname\)\.match\(.*\)\.group\(1\)\)|int\(.*_pattern\(indexname\)\.match\(.*\)\.group\(1\)\) != gen)\)$", t)
-                for t in true_facts)
+            any(re.match(r"^\((gen == int\(.*_pattern\(indexname\)\.match\(.*\)\.group\(1\)\)|int\(.*_pattern\(indexname\)\.match\(.*\)\.group\(1\)\) == gen)\)$", t)
+                for t in false_facts)
         seg_ok = any("_segment_pattern(indexname).match(" in t and ".group(" not in t for t in true_facts) and \
-            any(" not in " in t and "_segment_pattern(indexname).match(" in t.split(" not in ")[0]
-                and "segment_id()" in t.split(" not in ")[1] and "segments" in t.split(" not in ")[1]
-                for t in true_facts)
+            any(" in " in t and "_segment_pattern(indexname).match(" in t.split(" in ")[0]
+                and "segment_id()" in t.split(" in ", 1)[1] and "segments" in t.split(" in ", 1)[1]
+                for t in false_facts)
         ctx.ob(f, toc_ok or seg_ok, "deletion candidate is guarded by (toc & gen differs) or (segment & id unlisted)",
-               detail="facts on entry: %s" % sorted(true_facts), loc=ctx.nodeloc(f, n.ast))
+               detail="facts on entry: %s" % sorted(facts), loc=ctx.nodeloc(f, n.ast))
     # the deleted names come from the guarded set only
     for n, c in deletes:
         arg = c.args[0] if c.args else None
